@@ -201,3 +201,9 @@ func Reachable(edges map[string][]string, from, to string, within []string) bool
 	}
 	return false
 }
+
+// Record is the exported form of the logging handler body (for harnesses that
+// bind extra handler names themselves).
+func (l *HLog) Record(binding, name string, e *am.Event, neg bool) bool {
+	return l.record(binding, name, e, neg)
+}
